@@ -96,7 +96,7 @@ func RunFree(t *testing.T, plan *Plan, st *core.Stream, extra Extra, keepLog boo
 					w.teardown()
 					return
 				}
-				for _, ss := range w.srcs {
+				for _, ss := range w.sources() {
 					ss.node.Quiet = true
 				}
 				if err := w.startGenerationTasksOnly(); err != nil {
